@@ -1365,9 +1365,45 @@ __archive_read_ahead(struct archive_read *a, size_t min, ssize_t *avail)
 	return (__archive_read_filter_ahead(a->filter, min, avail));
 }
 
+#if defined(LIBARCHIVE_VERIF) && defined(__SANITIZE_ADDRESS__)
+/*
+ * Verification hook: while a window into the copy buffer is handed out,
+ * everything in that buffer outside [next, next + avail) is poisoned, so a
+ * format or filter reader that looks beyond the window it was given is
+ * reported by AddressSanitizer wherever the window happens to lie.
+ */
+#include <sanitizer/asan_interface.h>
+static const void *verif_filter_ahead(struct archive_read_filter *,
+    size_t, ssize_t *);
+
 const void *
 __archive_read_filter_ahead(struct archive_read_filter *filter,
     size_t min, ssize_t *avail)
+{
+	const void *p;
+
+	if (filter->buffer != NULL)
+		ASAN_UNPOISON_MEMORY_REGION(filter->buffer,
+		    filter->buffer_size);
+	p = verif_filter_ahead(filter, min, avail);
+	if (filter->buffer != NULL) {
+		char *e = filter->next + filter->avail;
+		ASAN_POISON_MEMORY_REGION(filter->buffer,
+		    filter->next - filter->buffer);
+		ASAN_POISON_MEMORY_REGION(e,
+		    filter->buffer + filter->buffer_size - e);
+	}
+	return (p);
+}
+
+static const void *
+verif_filter_ahead(struct archive_read_filter *filter,
+    size_t min, ssize_t *avail)
+#else
+const void *
+__archive_read_filter_ahead(struct archive_read_filter *filter,
+    size_t min, ssize_t *avail)
+#endif
 {
 	ssize_t bytes_read;
 	size_t tocopy;
